@@ -14,7 +14,11 @@ Init == l = 1 /\ nbad = 0 /\ nself = 0
 IsEvent(k) == l <= Len(Rec) /\ Rec[l].ev = k /\ l' = l + 1
 
 Diag(e) == LET a == C07_Diag(e.n, e.edges, e.res, e.snap)
-           IN IF a # "ok" THEN a ELSE C07_Diag(e.n, e.edges, e.res, e.pub)
+               b == C07_Diag(e.n, e.edges, e.res, e.pub)
+           IN IF a # "ok" THEN a ELSE IF b # "ok" THEN b
+              (* ... and what is emitted must say the same: no by-value cycle among the rendered items *)
+              ELSE IF e.res = "ok" /\ ~RenderedFinite(e.rendered) THEN "C07/InfiniteSizeAsRendered"
+              ELSE "ok"
 
 Known(e, d) == {}
 
